@@ -254,7 +254,8 @@ def shrink(ops, fx, pred):
 
 def unit_histories(ctx, mode):
     fx = 1 if mode == "fixed" else 0
-    n = 2200 if ctx.thorough else (260 if not ctx.escalated() else 500)
+    # C02 uses no generated source constants: only drift of its own anchors escalates the budget
+    n = 4000 if ctx.thorough else (200 if not ctx.drift else 400)
     fresh = "all"
     seeds = [ctx.rng.getrandbits(48) for _ in range(n)]
     args = [(s, fx, i, fresh) for i, s in enumerate(seeds)]
